@@ -1,8 +1,8 @@
 //! Defines parser functions related to character input.
 
 use winnow::{
-    ascii::line_ending,
-    combinator::{alt, delimited, eof, trace},
+    ascii::{line_ending, space0, space1},
+    combinator::{alt, delimited, eof, opt, repeat, trace},
     error::ParserError,
     stream::{AsChar, Compare, Stream, StreamIsPartial},
     token::{one_of, take_till, take_while},
@@ -54,6 +54,25 @@ where
     E: ParserError<I>,
 {
     trace("character::newlines", take_while(0.., b"\r\n")).parse_next(input)
+}
+
+/// Consumes all vertical spaces, which are lines made of blanks only (`sp* new-line`).
+/// The blanks on the last line are also consumed, if the line ends with EOF.
+pub fn vertical_spaces<I, E>(input: &mut I) -> winnow::Result<(), E>
+where
+    I: Stream + StreamIsPartial + winnow::stream::Compare<&'static str>,
+    <I as Stream>::Token: AsChar + Clone,
+    E: ParserError<I>,
+{
+    trace(
+        "character::vertical_spaces",
+        (
+            repeat(0.., (space0, line_ending).void()).map(|()| ()),
+            opt((space1, eof)),
+        ),
+    )
+    .void()
+    .parse_next(input)
 }
 
 /// Parses unnested string in paren.
